@@ -173,8 +173,7 @@ let () = register "filters" (fun c ->
         if res = "agg" then L [A "ok"; L (List.map (fun k -> A k) (flt_keys res sel))]
         else L [A "ok"; L (List.map (fun k -> A k) (flt_keys res sel)); A (string_of_int (List.length sel))]
       | Model.FrInvalid -> L [A "err"; A "invalid"]
-      | Model.FrCardinality -> L [A "err"; A "cardinality"]
-      | Model.FrPanic -> L [A "panic"]) in
+      | Model.FrCardinality -> L [A "err"; A "cardinality"]) in
     let ref_sx = L (List.map (fun k -> A k) (flt_keys res (Model.flt_ref r flt es))) in
     let where = (match Model.flt_validate r flt with
       | Model.FvOk -> "(" ^ flt_print res pit_z (Model.flt_emit r flt) ^ ")"
